@@ -180,6 +180,12 @@ def _value_to_cst(value: Any) -> cst.BaseExpression:  # noqa: C901
         # EnumClass.MEMBER
         class_name = type(value).__name__
         member_name = value.name
+        if member_name not in type(value).__members__:
+            # A combination of Flag members (name e.g. "R|W") or the zero flag
+            # (name None) is no attribute of the class: EnumClass(<value>)
+            return cst.Call(
+                func=cst.Name(class_name), args=[cst.Arg(value=_value_to_cst(value.value))]
+            )
         return cst.Attribute(value=cst.Name(class_name), attr=cst.Name(member_name))
     typ = type(value)
     if tu.is_list(typ):
